@@ -806,7 +806,8 @@ class ShortIntegrationFrameComputer(LinearFilterBankFrameComputer):
                 chunk_copied = end_idx
                 cur_buf = self._x_buf
             else:
-                cur_buf = chunk[start_idx:end_idx]
+                # no copy if already float64; the dfts assume 64-bit precision
+                cur_buf = chunk[start_idx:end_idx].astype(np.float64, copy=False)
             X_buf = self._compute_dft(cur_buf)
             self._fill_y_buf(X_buf, y_keep)
             del X_buf
